@@ -108,6 +108,7 @@ def run(ctx):
 
 
 def replay(case, ctx):
-    P = dict(progs.programs(case['embedding'][1], case['embedding'][2], case['kind']))
-    r = _run((tuple(case['word']), case['program'], P[case['program']], case['kind'], case['fast'], tuple(case['embedding']), case.get('program2'), case.get('chunk', 3)))
+    emb0 = tuple(case.get('embedding') or ctx.embedding)
+    P = dict(progs.programs(emb0[1], emb0[2], case['kind']))
+    r = _run((tuple(case['word']), case['program'], P[case['program']], case['kind'], case['fast'], tuple(case.get('embedding') or ctx.embedding), case.get('program2'), case.get('chunk', 3)))
     return [Violation.from_json(v) for v in r['viols']]
